@@ -4,15 +4,15 @@ Theorem base_path_transparent :
   (forall s, base_of_config (slash :: s) = base_of_config s /\ base_of_config (s ++ [slash]) = base_of_config s /\
              base_of_config (join_slash (base_of_config s)) = base_of_config s) /\
   (forall base m rest, route base m (base ++ rest) = route [] m rest) /\
-  (forall mfa cfg base st m body segs segs',
+  (forall mfa cfg srcok base st m body segs segs',
      Forall good_seg base -> segs' <> [] -> Forall2 dec_as segs segs' -> Forall nosl segs' ->
      Forall (fun s => plain_seg s = true) segs' ->
-     serve mfa cfg base st {| rq_meth := m; rq_path := join_slash (base ++ segs); rq_body := body |}
-     = serve mfa cfg [] st {| rq_meth := m; rq_path := join_slash segs; rq_body := body |}) /\
-  (forall mfa cfg base st m body segs segs',
+     serve mfa cfg srcok base st {| rq_meth := m; rq_path := join_slash (base ++ segs); rq_body := body |}
+     = serve mfa cfg srcok [] st {| rq_meth := m; rq_path := join_slash segs; rq_body := body |}) /\
+  (forall mfa cfg srcok base st m body segs segs',
      segs' <> [] -> Forall2 dec_as segs segs' -> Forall nosl segs' -> Forall (fun s => plain_seg s = true) segs' ->
      strip_prefix base segs' = None ->
-     fst (serve mfa cfg base st {| rq_meth := m; rq_path := join_slash segs; rq_body := body |}) = st).
+     fst (serve mfa cfg srcok base st {| rq_meth := m; rq_path := join_slash segs; rq_body := body |}) = st).
 Proof.
   split; [intros s; split; [apply base_of_config_lead|split; [apply base_of_config_trail|apply base_of_config_idem]]|].
   split; [exact route_base_prefix|]. split; [exact serve_base_shift|exact serve_outside_base].
